@@ -456,3 +456,26 @@ Example C10_import_resolves_relative_to_importer_nonvacuous :
       [([bs "a.example"], [(bs "root", [bs "root"; bs "/srv/a"])]);
        ([bs "b.example"], [(bs "root", [bs "root"; bs "/srv/b"]); (bs "basicauth", [bs "basicauth"; bs "/"; bs "u"; bs "p"])])]%string.
 Proof. exact two_directories_witness. Qed.
+
+(* A comment is insignificant WHATEVER ITS LENGTH: from a '#' met outside a token and outside quotes, every
+   rune up to the next line break is skipped — the lexer goes on exactly as if only the line break had been
+   written (same tokens, same line numbers for everything that follows); a comment that runs to the end of
+   the input yields nothing.  No bound on the length of the comment (a buffered reader's 4096 bytes or any other). *)
+Theorem C10_comment_of_any_length_insignificant : forall c r line tl esc,
+  Forall (fun ch => ch <> NL) c ->
+  lex_go (HASH :: c ++ NL :: r) line [] tl false false esc = lex_go (NL :: r) line [] tl false false esc.
+Proof. exact c10_comment_any_length. Qed.
+Print Assumptions C10_comment_of_any_length_insignificant.
+
+Theorem C10_comment_at_end_of_input_insignificant : forall c line tl esc,
+  Forall (fun ch => ch <> NL) c ->
+  lex_go (HASH :: c) line [] tl false false esc = [].
+Proof. exact c10_comment_at_eof. Qed.
+Print Assumptions C10_comment_at_end_of_input_insignificant.
+
+Example C10_comment_of_any_length_insignificant_nonvacuous :
+  Forall (fun ch => ch <> NL) (repeat 120 5000) /\
+  lex (bs "a b #"%string ++ repeat 120 5000 ++ NL :: bs "c"%string) = lex (bs "a b "%string ++ NL :: bs "c"%string) /\
+  map (fun t => (t_line t, t_text t)) (lex (bs "a b #"%string ++ repeat 120 5000 ++ NL :: bs "c"%string)) =
+    [(1%Z, bs "a"%string); (1%Z, bs "b"%string); (2%Z, bs "c"%string)].
+Proof. exact c10_comment_witness. Qed.
